@@ -220,7 +220,7 @@ def wild_to_re(p):
     return re.compile('(?s)\\A' + ''.join(out) + '\\Z')
 
 
-WORDS = st.text(st.sampled_from('abAB[]!-.x1 ~'), min_size=1, max_size=5)       # (a tilde is a character like any other: only * and ? are wildcards)
+WORDS = st.text(st.sampled_from('abAB[]!-.x1 ~\n'), min_size=1, max_size=5)       # (a tilde is a character like any other: only * and ? are wildcards)
 
 
 @st.composite
